@@ -179,6 +179,18 @@ ADDENDA10 = {
  "C13": " Also: IsMessageType is decided by truth table when written loop-free (type == t || slices.Contains(tt, type)); E6 inlines result-returning helpers of the package (one caller, one success return), so a shared request/ack step compares equal to the inlined form.",
 }
 
+# rounds 11-12 and corpus S (DESIGN §28, §30)
+ADDENDA12 = {
+ "C03": " Also (round 11): a pointer a decoder stores from a (value, error) call establishes non-nil only where that error is known nil (the return hands the error on, or lies behind its nil edge) — a decoder that reports success on some value of the error accepts the nil pointer that came with it. D15: strings.Split yields at least 1 + Count(prefix, sep) elements under a HasPrefix guard.",
+ "C06": " Also (round 12, K11): the message a top-level decoder is building is never a call argument before it is returned (shared C01-K7).",
+ "C09": " Also (round 12): K4 counts as a serialisation of an element every method invoked on it whose module implementation serialises part of its receiver (size queries that call ToBytes).",
+ "C11": " Also (round 12): under pendingMu the only select allowed is THE delivery select (send to the looked-up entry's channel, receive on that entry's done); the receive-loop rules C10-K1/K2/K7 are evaluated under C11 ('returns with the response as soon as an acceptable one arrives').",
+ "C12": " Also: the retry loop's condition is decided by truth table — from the loop head the try is entered exactly when i < retry or retry < 0, in any spelling.",
+ "C16": " Also (round 12, K11): the messages the three DHCPv6 decoders return share no memory with the datagram (E3 retention).",
+ "C18": " Also (round 12): every PacketConn.WriteTo in (*BroadcastRawUDPConn).WriteTo sends the frame of the reviewed builder udp4pkt(b, addr, boundAddr), and the header encoders ipv4.encode / udp.encode are called only by that builder (census): a second, pooled or in-place frame builder is reported. payloadLength may clamp to 0 only where the subtraction would wrap.",
+ "C19": " Also: the list encoder's scan is the loop that calls the per-name encoder (a size-only pre-pass is not part of it); an empty result under len(arg) == 0 is the concatenation over no names.",
+}
+
 NA_REASON = {}
 
 def main():
@@ -189,7 +201,7 @@ def main():
         pid = p["id"]
         if pid in CLAIMED:
             tech, text, note, ref = CLAIMED[pid]
-            text = text + ADDENDA.get(pid, "") + ADDENDA7.get(pid, "") + ADDENDA8.get(pid, "") + ADDENDA10.get(pid, "")
+            text = text + ADDENDA.get(pid, "") + ADDENDA7.get(pid, "") + ADDENDA8.get(pid, "") + ADDENDA10.get(pid, "") + ADDENDA12.get(pid, "")
             checks.append({
                 "property_id": pid,
                 "quick_cmd": f"./check.sh {pid} quick",
